@@ -39,10 +39,12 @@ def arg_canon(fn, P, cn, block, argi):
 def ret_exprs(fn, P, variant='Result::Ok'):
     """normalised payload expressions of `_0 = Ok(x)` / Some(x) statements: list of (block, expr)"""
     out = []
-    from .rules_g import ret_aliases
-    al = ret_aliases(fn)
-    for b, i, st in fn.stmts():
-        if st['k'] == 'assign' and st['lhs']['l'] in al and not st['lhs']['p']:
+    from .rules_g import ret_def_sites
+    for b, i in ret_def_sites(fn):
+        if i == -1:
+            continue
+        st = fn.blocks[b]['stmts'][i]
+        if True:
             rv = st['rv']
             if rv['k'] == 'aggr' and rv.get('akind') == 'adt' and '%s::%s' % (last(rv['adt']), rv['variant']) == variant and rv['ops']:
                 out.append((b, i, rv['ops'][0]))
